@@ -913,6 +913,29 @@ Proof.
   cbn [forallb]. now rewrite (existsb_key_rel key _ _ H), IH.
 Qed.
 
+Lemma existsb_perm : forall A (f : A -> bool) l l', Permutation l l' ->
+  existsb f l = existsb f l'.
+Proof.
+  intros A f l l' H. induction H; simpl; auto.
+  - now rewrite IHPermutation.
+  - destruct (f x), (f y); reflexivity.
+  - congruence.
+Qed.
+
+Lemma existsb_op_rel : forall l l', Forall2 eperm l l' ->
+  existsb (fun c => is_op (e_kind c)) l' = existsb (fun c => is_op (e_kind c)) l.
+Proof.
+  intros l l' H. induction H; [reflexivity|]. simpl. now rewrite (eperm_kind _ _ H), IHForall2.
+Qed.
+
+Lemma members_ok_rel : forall k kids kids', lrel (is_choice k) kids kids' ->
+  members_ok k kids' = members_ok k kids.
+Proof.
+  intros k kids kids' [l1 [H1 H2]]. unfold members_ok. f_equal. f_equal.
+  rewrite <- (existsb_op_rel _ _ H1).
+  destruct (is_choice k); [|now subst]. symmetry. now apply existsb_perm.
+Qed.
+
 Lemma config_kids_perm : forall c l l', Permutation l l' -> forall l2,
   config_kids c l = Some l2 -> exists l2', config_kids c l' = Some l2' /\ Permutation l2 l2'.
 Proof.
@@ -952,10 +975,11 @@ Proof.
   induction e using enode_ind2. intros c e' e2 He Hc.
   destruct (eperm_inv _ _ _ _ _ _ He) as [kids' [-> Hk]].
   rewrite config_node_unfold in *.
-  destruct (eff_config c (p_config p)) as [c0|]; try discriminate.
+  destruct (if is_datadef k then eff_config c (p_config p) else Some true) as [c0|];
+    try discriminate.
   destruct (config_kids c0 kids) as [kids2|] eqn:Ek; try discriminate.
-  rewrite (keys_ok_rel k ks kids kids' Hk).
-  destruct (keys_ok k ks kids); try discriminate. inversion Hc; subst e2.
+  rewrite (keys_ok_rel k ks kids kids' Hk), (members_ok_rel k kids kids' Hk).
+  destruct (keys_ok k ks kids && members_ok k kids); try discriminate. inversion Hc; subst e2.
   destruct Hk as [kids1 [H1 H2]].
   destruct (config_kids_pointwise c0 kids kids1 H1 H kids2 Ek) as [kids2' [Ek' R2]].
   destruct (is_choice k) eqn:Ck.
@@ -1045,6 +1069,24 @@ Proof.
   destruct H as [[[H1 H2] H3] H4]. rewrite H1, H2, (Hx H3). cbn [andb]. apply IH; auto.
 Qed.
 
+(** [by_class] only reorders *)
+Lemma by_class_split : forall l,
+  Permutation l (filter (fun e => negb (is_op (e_kind e))) l ++
+                 filter (fun e => kind_eqb (e_kind e) KAction) l ++
+                 filter (fun e => kind_eqb (e_kind e) KNotif) l).
+Proof.
+  induction l as [|x tl IH]; [constructor|].
+  cbn [filter]. destruct (e_kind x); cbn [is_op negb kind_eqb app]; try (now constructor).
+  - now apply Permutation_cons_app.
+  - rewrite app_assoc. apply Permutation_cons_app. now rewrite <- app_assoc.
+Qed.
+
+Lemma by_class_perm : forall l, Permutation l (by_class l).
+Proof.
+  intro l. eapply Permutation_trans; [apply by_class_split|]. unfold by_class.
+  apply Permutation_app_head. apply Permutation_app; apply sort_is_perm.
+Qed.
+
 Lemma norm_name : forall e, e_name (norm e) = e_name e. Proof. intros []; reflexivity. Qed.
 Lemma norm_kind : forall e, e_kind (norm e) = e_kind e. Proof. intros []; reflexivity. Qed.
 Lemma canon_name : forall e, e_name (canon e) = e_name e. Proof. intros []; reflexivity. Qed.
@@ -1061,8 +1103,8 @@ Proof.
   induction e using enode_ind2. cbn [canon]. rewrite !ewf_node_unfold. intro Hw.
   assert (Hm : ewf_list (is_choice k) [] (map canon kids) = true)
     by (apply ewf_list_map; auto using canon_name, canon_kind).
-  destruct k; try exact Hm.
-  eapply ewf_list_perm; [apply sort_is_perm|exact Hm].
+  destruct k; cbn [is_choice] in *; (eapply ewf_list_perm; [|exact Hm]);
+    first [apply sort_is_perm | apply by_class_perm].
 Qed.
 
 (** config_node keeps names, kinds and the invariant *)
@@ -1095,9 +1137,10 @@ Qed.
 Lemma config_node_ewf : forall e, cfg_ewf_at e.
 Proof.
   induction e using enode_ind2. intros c e2 Hc. rewrite config_node_unfold in Hc.
-  destruct (eff_config c (p_config p)) as [c0|]; try discriminate.
+  destruct (if is_datadef k then eff_config c (p_config p) else Some true) as [c0|];
+    try discriminate.
   destruct (config_kids c0 kids) as [kids2|] eqn:Ek; try discriminate.
-  destruct (keys_ok k ks kids); try discriminate. inversion Hc; subst e2.
+  destruct (keys_ok k ks kids && members_ok k kids); try discriminate. inversion Hc; subst e2.
   repeat split. rewrite !ewf_node_unfold. eapply config_kids_ewf_gen; eauto.
 Qed.
 
@@ -1117,6 +1160,7 @@ Proof.
   apply expand_modset_ewf_proof in E.
   destruct (config_kids true t0) as [t1|] eqn:Ec; try discriminate. inversion H; subst t.
   apply (config_kids_ewf _ _ _ _ _ Ec) in E.
+  eapply ewf_list_perm; [apply by_class_perm|].
   apply ewf_list_map; auto.
   - intro e. now rewrite norm_name, canon_name.
   - intro e. now rewrite norm_kind, canon_kind.
@@ -1152,7 +1196,7 @@ Proof.
   destruct (config_kids true t0) as [t1|] eqn:Ec; try discriminate. inversion H; subst t.
   pose proof (config_kids_ewf _ _ _ _ _ Ec Hw0) as Hw1.
   destruct (config_kids_rel true t0 t0' R0 t1 Ec) as [t1' [Ec' R1]].
-  rewrite Ec'. f_equal. apply ewf_list_forallb in Hw1. clear - R1 Hw1.
+  rewrite Ec'. do 2 f_equal. apply ewf_list_forallb in Hw1. clear - R1 Hw1.
   induction R1 as [|x x' tl tl' Hx Ht IH]; [reflexivity|].
   cbn [forallb] in Hw1. apply andb_true_iff in Hw1. destruct Hw1 as [H1 H2].
   cbn [map]. rewrite (canon_eperm x x' Hx H1), (IH H2). reflexivity.
